@@ -12,6 +12,7 @@ import (
 	"fmt"
 	"os"
 	"sort"
+	"strconv"
 	"sync"
 	"testing"
 	"time"
@@ -197,7 +198,7 @@ func TestC11(t *testing.T) {
 	vcore.Parallel(nChild, 3, func(i int) {
 		out := fmt.Sprintf("%s/work/C11-children/digests-%s-seed%d-%d.json", vcore.Root(), r.Tier, r.Seed, i)
 		os.Remove(out)
-		res := r.RunChild("TestC11Child", fmt.Sprintf("proc%d", i), []string{"VERIF_C11_OUT=" + out}, 30*time.Minute)
+		res := r.RunChild("TestC11Child", fmt.Sprintf("proc%d", i), []string{"VERIF_C11_OUT=" + out, fmt.Sprintf("VERIF_C11_CHILD=%d", i)}, 30*time.Minute)
 		if !res.OK {
 			if res.TimedOut {
 				r.Inconclusive("child-watchdog")
@@ -351,6 +352,19 @@ func TestC11Child(t *testing.T) {
 	}
 	r := vcore.Start(t, "C11")
 	vs := variants(r)
+	// every process compiles the variants in another order: what a compilation produces must not
+	// depend on what the process compiled before (child 0: the parent's order; odd children:
+	// reversed; the others: rotated)
+	if ci, _ := strconv.Atoi(os.Getenv("VERIF_C11_CHILD")); ci > 0 && len(vs) > 1 {
+		if ci%2 == 1 {
+			for a, b := 0, len(vs)-1; a < b; a, b = a+1, b-1 {
+				vs[a], vs[b] = vs[b], vs[a]
+			}
+		} else {
+			k := (ci * 7) % len(vs)
+			vs = append(append(vs[:0:0], vs[k:]...), vs[:k]...)
+		}
+	}
 	out := map[string][]string{}
 	for _, v := range vs {
 		for i := 0; i < 2; i++ {
